@@ -611,6 +611,21 @@ class Run:
         self.by_view: dict[str, tuple[str, dict[str, Any]]] = {}
         self.blobs: set[bytes] = set()
         self.n_servers = 0
+        self.pending: list[tuple[str, Any, Any]] = []  # (driver fn, args, callback(result)) — flushed in batches
+
+    def ask(self, fn: str, args: Any, cb: Any) -> None:
+        self.pending.append((fn, args, cb))
+        if len(self.pending) >= 400:
+            self.flush()
+
+    def flush(self) -> None:
+        if not self.pending or self.ctx.driver is None:
+            self.pending = []
+            return
+        todo, self.pending = self.pending, []
+        res = self.ctx.driver.batch([(fn, a) for fn, a, _ in todo])
+        for (_fn, _a, cb), r in zip(todo, res):
+            cb(r)
 
     # ---- building ------------------------------------------------------------------------------------
     def build(self, s: SvcSpec) -> tuple[RpcServer | None, str | None]:
@@ -675,38 +690,43 @@ class Run:
                 impl = {"ok": True}
             except ValueError as e:
                 impl = {"ok": False, "err": "separator_in_name" if "framing separator" in str(e) else f"ValueError:{e}"}
-        model = ctx.driver.call("C39.build", {"svc": model_service(name, methods, server_id, version)})
-        if model["ok"] != impl["ok"] or (not model["ok"] and model["err"] != impl["err"]):
-            ctx.mismatch(case, {k: model[k] for k in ("ok", "err") if k in model}, impl, "build_describe_batch: accept/reject")
-            return
-        if not impl["ok"]:
-            ctx.tag("k:build:rejected")
-            return
-        real_rows = rows_of_batch(batch)
-        for r in batch.to_pylist():
-            for c in ("params_schema_ipc", "result_schema_ipc", "header_schema_ipc"):
-                if r[c] is not None:
-                    self.blobs.add(r[c])
-        if model["rows"] != real_rows:
-            ctx.mismatch(case, model["rows"], real_rows, "describe rows: model vs build_describe_batch")
-            return
-        real_md = dict(md)
-        real_hash = real_md[PROTOCOL_HASH_KEY].decode()
-        mmd = [(bytes.fromhex(k), bytes.fromhex(v)) for k, v in model["md"]]
-        mmd_cmp = [(k, hashlib.sha256(bytes.fromhex(v.decode())).hexdigest().encode() if k == PROTOCOL_HASH_KEY else v) for k, v in mmd]
-        if mmd_cmp != list(real_md.items()):
-            ctx.mismatch(case, [(k.decode(), v.hex()) for k, v in mmd_cmp], [(k.decode(), v.hex()) for k, v in real_md.items()],
-                         "describe metadata: model vs build_describe_batch")
-            return
-        pre = bytes.fromhex(model["preimage"])
-        if len(rec.captured) != 1 or rec.captured[0] != pre:
-            ctx.mismatch(case, pre.hex(), [c.hex() for c in rec.captured], "hash pre-image bytes: model vs what compute_protocol_hash fed to sha256")
-            return
-        if hashlib.sha256(pre).hexdigest() != real_hash or (expect_hash is not None and expect_hash != real_hash):
-            ctx.mismatch(case, hashlib.sha256(pre).hexdigest(), real_hash, "sha256(model pre-image) vs real protocol_hash")
-            return
-        # parse what was built
-        self.k_parse(real_rows, md_list(md), batch, md, "built")
+        captured = list(rec.captured)
+        if impl["ok"]:
+            real_rows = rows_of_batch(batch)
+            for r in batch.to_pylist():
+                for c in ("params_schema_ipc", "result_schema_ipc", "header_schema_ipc"):
+                    if r[c] is not None:
+                        self.blobs.add(r[c])
+            real_md = dict(md)
+            # parse what was built
+            self.k_parse(real_rows, md_list(md), batch, md, "built")
+
+        def compare(model: dict[str, Any]) -> None:
+            if model["ok"] != impl["ok"] or (not model["ok"] and model["err"] != impl["err"]):
+                ctx.mismatch(case, {k: model[k] for k in ("ok", "err") if k in model}, impl, "build_describe_batch: accept/reject")
+                return
+            if not impl["ok"]:
+                ctx.tag("k:build:rejected")
+                return
+            if model["rows"] != real_rows:
+                ctx.mismatch(case, model["rows"], real_rows, "describe rows: model vs build_describe_batch")
+                return
+            real_hash = real_md[PROTOCOL_HASH_KEY].decode()
+            mmd = [(bytes.fromhex(k), bytes.fromhex(v)) for k, v in model["md"]]
+            mmd_cmp = [(k, hashlib.sha256(bytes.fromhex(v.decode())).hexdigest().encode() if k == PROTOCOL_HASH_KEY else v) for k, v in mmd]
+            if mmd_cmp != list(real_md.items()):
+                ctx.mismatch(case, [(k.decode(), v.hex()) for k, v in mmd_cmp], [(k.decode(), v.hex()) for k, v in real_md.items()],
+                             "describe metadata: model vs build_describe_batch")
+                return
+            pre = bytes.fromhex(model["preimage"])
+            if len(captured) != 1 or captured[0] != pre:
+                ctx.mismatch(case, pre.hex(), [c.hex() for c in captured],
+                             "hash pre-image bytes: model vs what compute_protocol_hash fed to sha256")
+                return
+            if hashlib.sha256(pre).hexdigest() != real_hash or (expect_hash is not None and expect_hash != real_hash):
+                ctx.mismatch(case, hashlib.sha256(pre).hexdigest(), real_hash, "sha256(model pre-image) vs real protocol_hash")
+
+        self.ask("C39.build", {"svc": model_service(name, methods, server_id, version)}, compare)
 
     # ---- K: parse_describe_batch ------------------------------------------------------------------------------
     def k_parse(self, rows: list[dict[str, Any]], mdl: list[list[str]], batch: pa.RecordBatch, md: Any, tag: str) -> None:
@@ -736,12 +756,15 @@ class Run:
             impl = {"ok": False, "err": "bad_schema"}
         except ValueError:
             impl = {"ok": False, "err": "bad_method_type"}
-        model = ctx.driver.call("C39.parse", {"rows": rows, "md": mdl, "valid": valid})
         ctx.case(case, nontrivial=bool(rows), tags=(f"k:parse:{tag}", "parse:ok" if impl["ok"] else f"parse:{impl['err']}"))
-        if model["ok"]:
-            model = {"ok": True, "desc": canon_model_description(model["desc"])}
-        if model != impl:
-            ctx.mismatch(case, model, impl, "parse_describe_batch: model vs implementation")
+
+        def compare(model: dict[str, Any]) -> None:
+            if model["ok"]:
+                model = {"ok": True, "desc": canon_model_description(model["desc"])}
+            if model != impl:
+                ctx.mismatch(case, model, impl, "parse_describe_batch: model vs implementation")
+
+        self.ask("C39.parse", {"rows": rows, "md": mdl, "valid": valid}, compare)
 
     # ---- K: compute_protocol_hash on an arbitrary batch ---------------------------------------------------------
     def k_hash(self, name: str, rows: list[dict[str, Any]], batch: pa.RecordBatch, tag: str) -> None:
@@ -758,14 +781,19 @@ class Run:
                 impl: dict[str, Any] = {"ok": True}
             except ValueError as e:
                 impl = {"ok": False, "err": "separator_in_name" if "framing separator" in str(e) else f"ValueError:{e}"}
-        model = ctx.driver.call("C39.hash", {"name": s2j(name), "rows": rows})
-        if model["ok"] != impl["ok"] or (not model["ok"] and model["err"] != impl["err"]):
-            ctx.mismatch(case, model, impl, "compute_protocol_hash: accept/reject")
-            return
-        if impl["ok"]:
-            pre = bytes.fromhex(model["preimage"])
-            if rec.captured != [pre] or hashlib.sha256(pre).hexdigest() != h:
-                ctx.mismatch(case, pre.hex(), [c.hex() for c in rec.captured], "hash pre-image on an arbitrary batch")
+        captured = list(rec.captured)
+        hh = h if impl["ok"] else None
+
+        def compare(model: dict[str, Any]) -> None:
+            if model["ok"] != impl["ok"] or (not model["ok"] and model["err"] != impl["err"]):
+                ctx.mismatch(case, model, impl, "compute_protocol_hash: accept/reject")
+                return
+            if impl["ok"]:
+                pre = bytes.fromhex(model["preimage"])
+                if captured != [pre] or hashlib.sha256(pre).hexdigest() != hh:
+                    ctx.mismatch(case, pre.hex(), [c.hex() for c in captured], "hash pre-image on an arbitrary batch")
+
+        self.ask("C39.hash", {"name": s2j(name), "rows": rows}, compare)
 
     # ---- O: faithful + exempt -------------------------------------------------------------------------------
     def check_describe(self, s: SvcSpec, srv: RpcServer, http: bool) -> None:
@@ -1047,12 +1075,7 @@ def run(ctx: Any) -> None:
 
     rng = ctx.rng
     r = Run(ctx)
-    thorough = ctx.tier == "thorough" or ctx.deep
-    # ---- corpus + generated services, all single-point edits
-    specs = list(CORPUS) + [gen_service(rng) for _ in range(ctx.budget(40, 400))]
-    for i, s in enumerate(specs):
-        r.service(copy.deepcopy(s), all_edits=True, http=(i < 8 or thorough or rng.random() < 0.15), k_edits=True)
-    # ---- confusable names (framing separators)
+    # ---- confusable names (framing separators) — first: the inputs around the hypotheses of C39_sensitive
     for s1, s2 in confusable_pairs(rng):
         case = {"pair": [spec_json(s1), spec_json(s2)]}
         ctx.case(case, nontrivial=True, tags=("o:confusable",))
@@ -1073,17 +1096,30 @@ def run(ctx: Any) -> None:
                 r.k_build(s.name, rpc_methods(P), s.server_id, s.version, "confusable")
             except Exception as e:  # noqa: BLE001
                 ctx.note("confusable_build_error", repr(e))
+    r.flush()
+
+    def bud(quick: int, thorough: int) -> int:
+        # a failing input is already in hand: no need for the raised (deep) budget, explore at the normal one
+        if ctx.deep and ctx.failures and ctx.tier != "thorough":
+            return quick
+        return ctx.budget(quick, thorough)
+
+    thorough = ctx.tier == "thorough" or (ctx.deep and not ctx.failures)
+    # ---- corpus + generated services, all single-point edits
+    specs = list(CORPUS) + [gen_service(rng) for _ in range(bud(70, 1500))]
+    for i, s in enumerate(specs):
+        r.service(copy.deepcopy(s), all_edits=True, http=(i < 8 or thorough or rng.random() < 0.15), k_edits=True)
     # ---- mutated batches: compute_protocol_hash + parse_describe_batch on arbitrary input
     from vgi_rpc.rpc import rpc_methods
 
     bases = []
-    for s in specs[: ctx.budget(25, 120)]:
+    for s in specs[: bud(25, 120)]:
         try:
             P, _ = make_classes(s)
             bases.append((s, build_describe_batch(s.name, rpc_methods(P), s.server_id, s.version)))
         except Exception:  # noqa: BLE001
             pass
-    for _ in range(ctx.budget(250, 4000)):
+    for _ in range(bud(250, 4000)):
         s, (batch, md) = rng.choice(bases)
         mb, mmd, kind = mutate_rows(rng, batch, md)
         name = rng.choice([s.name, s.name, "Other", "A|\x1fx", "é"])
@@ -1092,10 +1128,11 @@ def run(ctx: Any) -> None:
             continue
         r.k_hash(name, rows, mb, kind)
         r.k_parse(rows, md_list(mmd), mb, mmd, kind)
+    r.flush()
     k_primitives(ctx, r)
     k_env_laws(ctx, r)
     # ---- a fresh interpreter computes the same hashes
-    sample = [s for s in specs if not any(c in s.name for c in SEPS)][: ctx.budget(12, 150)]
+    sample = [s for s in specs if not any(c in s.name for c in SEPS)][: bud(12, 150)]
     try:
         sub = hashes_in_subprocess(sample)
         for s, h in zip(sample, sub):
@@ -1145,5 +1182,6 @@ def replay(ctx: Any, case: dict[str, Any]) -> None:
             ctx.fail(case, "C39:hash-unstable:process", f"fresh interpreter computed {h}, this process {srv.protocol_hash}")
     elif "service" in case:
         r.service(spec_from_json(case["service"]), all_edits=True, http=True, k_edits=True)
+        r.flush()
     else:
         ctx.note("replay", "K case: re-run the check with the same VERIF_SEED")
